@@ -1,5 +1,6 @@
 """C13 - structured mode keeps the reference as a well-formed `ref` key-value."""
 import json
+import os
 
 from .. import core, frame, gen, lab
 
@@ -59,11 +60,30 @@ def work(job):
         meta.append((it, kind, kv_ref))
     with core.Box(tag="c13") as box:
         out = lab.run_tree(built, box, {"src/f.rs": gf.data()}, core.make_config(structured=True, use_cache=False), trace=True)
+        fol = None
+        if out.edit is not None and out.edit.rc == 0 and not out.edit.panicked():
+            # what the edit run added must be `ref = N` as the tool itself reads it: a check of the edited file finds nothing missing
+            # and no unusable reference that was not there before
+            fol = core.run_breadlog(built, box, os.path.join(box.proj, "Breadlog.yaml"), check=True)
     fo = out.files["src/f.rs"]
     res = {"evaluations": 2, "nontrivial": [], "violations": [], "samples": [], "inconclusive": {}, "counters": {}}
     if out.check.panicked() or out.edit.panicked():
         res["inconclusive"]["run-crashed (C17's business)"] = 1
         return res
+    if fol is not None and not fol.panicked() and not fol.timed_out and not out.check.timed_out:
+        res["counters"]["edited_files_checked_again"] = 1
+        what = None
+        if fol.missing():
+            what = "reported-missing-again"
+        elif len(fol.unusable()) > len(out.check.unusable()):
+            what = "reported-unusable"
+        if what:
+            res["violations"].append({"signature": "C13.added-reference-not-read-back-as-ref|" + what,
+                                      "detail": {"missing_after_edit": fol.missing()[:3], "unusable_before": len(out.check.unusable()),
+                                                 "unusable_after": len(fol.unusable()), "first_unusable_after": fol.unusable()[:3],
+                                                 "edit_stdout": out.edit.out[-200:]},
+                                      "case": {"cases": [[it.stmt.feat, k, r] for it, k, r in meta], "eol": eol}})
+            return res
     if fo.tokens is None:
         res["inconclusive"]["prerequisite C03 failed (decomposition)"] = 1
         return res
